@@ -6,6 +6,8 @@ CONSTANTS
   Txs <- MCTxs
   FixTxIndexMissingBlock = TRUE
   FixZeroHashState = TRUE
+  FixLegacyZeroWriteLog = TRUE
+  LubZeroShortcut = FALSE
   WithPreConfirmed = TRUE
 INIT Init
 NEXT Next
